@@ -130,6 +130,10 @@ def check_literals(ctx: Ctx, prop_rule: str, env: EnvA, sl, root, lits, what: st
         leaf, elsewhere, rev, cands = m[lit.name]
         inst = f"{env.name}.{what}:{lit.name}"
         if direction == "looser":
+            if leaf is None and lit.alt and elsewhere:
+                # a pruning alternative: its orientation decides which feasible moves are hidden (C05.c), not whether offered moves are feasible
+                ctx.ob(id_presence, inst, True, sl.where, f"pruning literal present ({show_leaf(elsewhere[0])}); its orientation is C05's concern")
+                continue
             if leaf is None:
                 extra = ""
                 if elsewhere:
@@ -610,6 +614,33 @@ def rule_n(ctx: Ctx, env: EnvA):
     ctx.ob("C01.n", "MDCPDPEnv._step:current_depot", okd, sl.where, whyd, construct="MDCPDPEnv._step:current-depot")
 
 
+def svrp_last_technician(ctx: Ctx, env: EnvA, sl, root):
+    """C01.s SVRP: the depot is closed while customers remain if the vehicle is at the depot OR the current technician is the
+    last one (index n_tech - 1, n_tech = techs.size(-2)): returning would advance `current_tech` past the last technician."""
+    leaves = nf.boolwalk(root, T.BOOL_CELLS)
+    last = [l for l in leaves if l.cmp() is not None and l.cmp()[1] in ("==0", "!=0") and "current_tech" in vg.cells_of(l.node)]
+    atdep = [l for l in leaves if l.cmp() is not None and l.cmp()[1] in ("==0", "!=0") and vg.cells_of(l.node) == {"current_node"}]
+    ok, why = False, f"last-technician literal not found ({len(last)} candidates)"
+    if len(last) == 1:
+        P = last[0].cmp()[0]
+        # P = +-(current_tech - n_tech + 1)
+        atoms = P.atoms()
+        dims = [nf.dim_of(a) for a in atoms]
+        n_ax = [d for d in dims if d is not None and "techs" in vg.cells_of(d[0]) and d[1] in (-2, 1)]
+        cur = [a for a in atoms if "current_tech" in vg.cells_of(a)]
+        if len(n_ax) == 1 and len(cur) == 1 and len(atoms) == 2:
+            nat = [a for a, d in zip(atoms, dims) if d is not None][0]
+            want = nf.Poly.atom(cur[0]) - nf.Poly.atom(nat) + nf.Poly.const(1)
+            ok = P == want or P == -want
+            why = f"last technician test is {P.show(3)} == 0 (reference: current_tech - techs.size(-2) + 1): {ok}"
+            if ok and atdep:
+                op = nf.lca_op(last[0], atdep[0])
+                # both literals sit under one negation (the depot column is ~mask_depot): effective connective of the admit form
+                ok = op == ("and" if last[0].sign < 0 else "or")
+                why += f"; combined with 'at the depot' by {'OR (before negation)' if ok else op}"
+    ctx.ob("C01.s", "SVRPEnv.mask:last-technician-index", ok, sl.where, why, construct=f"{sl.fi.qualname}:last-technician:index")
+
+
 def run(ctx: Ctx):
     registries = {
         "context": _registry(ctx, "rl4co/models/nn/env_embeddings/context.py", "env_context_embedding"),
@@ -632,6 +663,8 @@ def run(ctx: Ctx):
         rule_k(ctx, env)
         rule_m(ctx, env)
         rule_n(ctx, env)
+        if cname == "SVRPEnv":
+            svrp_last_technician(ctx, env, sl, root)
         if cname == "MTVRPEnv":
             # C01.u: the only env with a vehicle speed: clocks, windows and service times are times, legs and limits are lengths
             from .. import units
